@@ -62,7 +62,7 @@ def plan(tier: str, seed: int) -> list[dict]:
     return [{"kind": "dir", "idx": i, "nmoves": n_moves, "seed": seed} for i in range(n_dirs)]
 
 
-DEST_KINDS = ["existing", "existing", "existing", "header_blank", "ends_multiline", "ends_section_header", "missing_template", "self", "header_only", "existing_template_match", "existing_template_match"]
+DEST_KINDS = ["existing", "existing", "existing", "header_blank", "ends_multiline", "ends_section_header", "missing_template", "self", "header_only", "existing_template_match", "existing_template_match", "note_then_header", "note_then_h2_header", "ends_comment", "note_then_header_mid"]
 TEMPLATE = "# Template for done pages.\n\n## Done log {{ name }}\n##\n## second line\n\n################################ Moved here\n"
 
 
@@ -126,7 +126,7 @@ def run_dir(acc: Acc, seed: int, idx: int, nmoves: int, only=None) -> None:
                 elif u < 0.24:
                     it.words.append(pg.W(f"see {it.zid} again", form="self_mention"))
                 if rng.random() < 0.06:
-                    it.words.append(pg.W(rng.choice(["tab\there", "col1\tcol2\tcol3", "\u00e9t\u00e9"]), form="plain"))
+                    it.words.append(pg.W(rng.choice(["tab\there", "col1\tcol2\tcol3", "\u00e9t\u00e9", "page\x0cbreak", "line\u2028sep", "n\x85l"]), form="plain"))
                 if rng.random() < 0.1 and it.words and not it.words[0].has_meta() and not it.words[0].text.endswith("::"):
                     it.words.insert(0, pg.W("hq::", form="headline_prop"))
         # decoys: the text of an INHERITED tag embedded in a token that is not that tag
@@ -197,6 +197,11 @@ def run_dir(acc: Acc, seed: int, idx: int, nmoves: int, only=None) -> None:
                     "header_only": "# Dest\n",
                     "ends_multiline": "# Dest\n\n- 200101#Aa first\n  * bullet one\n    - deeper\n",
                     "ends_section_header": "# Dest\n\n- 200101#Aa first\n\n################################ Empty section",
+                    # the last note is DIRECTLY followed (no blank line) by the header of a section without notes
+                    "note_then_header": "# Dest\n\n################################ Morning\n- 200101#Aa first\n################################ Evening\n",
+                    "note_then_h2_header": "# Dest\n\n- 200101#Aa first\n  * bullet\n======================== Waiting",
+                    "ends_comment": "# Dest\n\n- 200101#Aa first\n# a comment closes the last block\n",
+                    "note_then_header_mid": "# Dest\n\n- 200101#Aa first\n################################ Later\n\n- 200102#Ab second\n\n",
                 }[dk]
                 (root / dest).write_text(text)
             dest_arg = dest[:-3] if mrng.random() < 0.5 else dest
